@@ -7,7 +7,10 @@ DIGITS = '0123456789'
 PUNCT = ' .:-_/%\\\'"+*?()[]{}|^$<>#&~,;=@!'
 # non-ASCII characters on which Base/PyVal.v `lower_cp` is CPython's str.lower (checked at import)
 UNI = ['é', 'É', 'ß', '×', '÷', 'Ж', 'ж', 'Ё', 'ё', '中',
-       '\U0001f600', 'ÿ', 'Þ', 'þ', 'А', 'я', 'Я']
+       '\U0001f600', 'ÿ', 'Þ', 'þ', 'А', 'я', 'Я',
+       # combining marks: text that is not in a Unicode normal form (code points are what is compared, never a
+       # normalised form)
+       '\u0301', '\u0308']
 
 
 def _model_lower(c):
@@ -263,7 +266,8 @@ def rule(rng, depth=2, inquiry_rules=True, raising=True):
     if k == 'custom':
         if rng.random() < 0.5:
             return ['Broken', rng.choice(['ValueError', 'KeyError', 'Exception', 'Custom1', 'TypeError', 'StopIteration',
-                                           'LookupError', 'ZeroDivisionError'])]
+                                           'LookupError', 'ZeroDivisionError', 'RecursionError', 'MemoryError',
+                                           'OSError', 'AssertionError', 'NotImplementedError', 'UnicodeError'])]
         return ['Const', jv(rng.choice([None, 0, 1, '', 'x', [], [0], True, False]))]
     raise AssertionError(k)
 
@@ -324,7 +328,7 @@ def operand_for(rng, r):
 # ---------------- policies / inquiries / scenarios ----------------
 
 EFFECTS = ['allow'] * 12 + ['deny'] * 4 + ['ALLOW', None, '', 0, 'Allow ', 'allow\n', 1, True]
-LIT_ALPHA = 'ab:/.+$ xé'
+LIT_ALPHA = 'ab:/.+$ xée\u0301'     # e + U+0301: decomposed text must stay as written
 
 
 def str_element(rng, tags=('<', '>'), max_segs=2, unbalanced=True):
